@@ -108,7 +108,7 @@ m = {
     "version": 1,
     "setup_cmd": "cd lean && lake build",
     "hooks": {"guard": "GCMPY_VERIF",
-              "enable": "no hooks: the harness observes the real code in-process by replacing module attributes (random.*, eecc.choice, mpcc.shuffle) and wrapping methods; nothing is compiled into /repo",
+              "enable": "no hooks: the harness observes the real code in-process by standing in for the public functions of the `random` module (harness/core/rng.py, every use is read as uniform / weighted / permutation / float events) and by wrapping two public methods when they exist (EECC.compute_scores, MarkovChainMonteCarloRewiring.swap_condition); nothing is added to /repo",
               "baseline_off_cmd": "cd /repo && /venv/bin/python -m pytest -ra -q -p no:cacheprovider --timeout=900 --continue-on-collection-errors",
               "source_commits": [], "add_only": True},
     "engines": [{"name": "lean4-model+correspondence", "path": "lean/ + harness/", "serves_properties": sorted(CLAIMS),
